@@ -283,6 +283,13 @@ def check(case):
             if state['nested']:
                 return
             lab = cell.label
+            try:
+                parts = tuple(cell)
+                r_, c_ = cell
+            except Exception as e:
+                parts, r_, c_ = repr(e), None, None
+            if r_ is not cell.row or c_ is not cell.col or len(parts) != 2 or parts[0] is not cell.row or cell[0] is not cell.row or cell[1] is not cell.col:
+                problems.append('the cell %s handed to a listener unpacks to %r, not to its (row, column) parts' % (lab, parts))
             log.append((idx, kind, lab, cell.row.index, cell.col.index, cell.row.is_absolute, cell.col.is_absolute))
             kept.append((cell, (lab, cell.row.index, cell.col.index, cell.row.is_absolute, cell.col.is_absolute)))
             for t in tpl:
